@@ -23,14 +23,16 @@ namespace Metapype
     collector list owned by the caller -/
 theorem C11_no_tree_write_site : ∀ s ∈ Gen.writeSites, s.2.2.2.2 ≠ "tree" := by decide +kernel
 
-/-- the inventory is not vacuous: it covers the validators, the evaluators, both exporters, the JSON codecs,
-    the queries and the comparison -/
+/-- the inventory is not vacuous: it starts from the public read-only entry points (validation, evaluation, both exporters,
+    the JSON codec, the queries, the comparison) and reaches a substantial part of the package from them (private helpers are
+    found by reachability, not listed by name: renaming or splitting them does not change this statement) -/
 theorem C11_inventory_covers :
-    ("eml/validate.py", "tree") ∈ Gen.readOnlyFunctions ∧ ("eml/rule.py", "Rule._validate_children") ∈ Gen.readOnlyFunctions ∧
-    ("eml/evaluate.py", "_dataset_rule") ∈ Gen.readOnlyFunctions ∧ ("eml/export.py", "to_xml") ∈ Gen.readOnlyFunctions ∧
-    ("model/metapype_io.py", "_serialize") ∈ Gen.readOnlyFunctions ∧ ("model/metapype_io.py", "to_xml") ∈ Gen.readOnlyFunctions ∧
-    ("model/metapype_io.py", "_nsp_unique") ∈ Gen.readOnlyFunctions ∧ ("model/node.py", "Node.is_equal") ∈ Gen.readOnlyFunctions ∧
-    ("model/node.py", "Node.find_all_descendants") ∈ Gen.readOnlyFunctions := by decide +kernel
+    (∀ x ∈ [("eml/validate.py", "tree"), ("eml/validate.py", "node"), ("eml/rule.py", "Rule.validate_rule"),
+            ("eml/rule.py", "Rule.child_insert_index"), ("eml/evaluate.py", "tree"), ("eml/evaluate.py", "node"),
+            ("eml/export.py", "to_xml"), ("model/metapype_io.py", "to_json"), ("model/metapype_io.py", "to_xml"),
+            ("model/metapype_io.py", "graph"), ("model/node.py", "Node.is_equal"), ("model/node.py", "Node.find_all_descendants"),
+            ("model/node.py", "Node.find_all_nodes_by_path")], x ∈ Gen.readOnlyFunctions) ∧
+    60 ≤ Gen.readOnlyFunctions.length := by decide +kernel
 
 /-- a history of read-only operations: each is a function of the tree value alone -/
 inductive ReadOp where
